@@ -35,7 +35,7 @@ var pub4 = []string{"8.8.8.8", "1.1.1.1", "93.184.216.34", "203.0.114.9", "192.0
 var priv4 = []string{"10.0.0.1", "10.255.255.254", "172.16.0.1", "172.31.255.1", "192.168.1.1", "127.0.0.1", "169.254.10.10", "100.64.0.1", "192.0.2.55", "198.18.0.1", "198.19.255.254"}
 var pub6 = []string{"2606:4700:4700::1111", "2a00:1450:4001:81b::200e", "2400:cb00::1"}
 var priv6 = []string{"::1", "fe80::1", "fc00::1", "fd12:3456::1", "2001:db8::7"}
-var junk = []string{"\"", "unknown", "_hidden", "", "junk", "1.2.3", "1.2.3.4.5", "gggg::1", "1.2.3.4:80:90", "0.0.0.0", "::", "-", "a.b.c.d", "300.1.1.1", "1.1.1.1 2.2.2.2", "8.8.8.8%a%b", "[2606:4700::1111%x%y]:443", "fe80::1%a%b", "%eth0"}
+var junk = []string{"\"", "unknown", "_hidden", "", "junk", "1.2.3", "1.2.3.4.5", "gggg::1", "1.2.3.4:80:90", "0.0.0.0", "::", "-", "a.b.c.d", "300.1.1.1", "1.1.1.1 2.2.2.2", "8.8.8.8%a%b", "[2606:4700::1111%x%y]:443", "fe80::1%a%b", "%eth0", "::ffff:0.0.0.0", "::ffff:0:0", "[::ffff:0.0.0.0]:80", "0:0:0:0:0:ffff:0:0", "0.0.0.0:80", "[::]:80"}
 
 func genEntry(r *rand.Rand, forwarded bool) entry {
 	if r.IntN(5) == 0 {
@@ -457,6 +457,21 @@ func one(run *kit.Run, r *rand.Rand) {
 			}
 			check("RightmostTrustedRange(private ranges)", res, want, true, true)
 		}
+	}
+	// rightmost trusted range with an EMPTY list: nobody is trusted, the rightmost entry is the answer (an error if it
+	// is not an address)
+	for _, empty := range [][]net.IPNet{nil, {}} {
+		empty := empty
+		res, err := clientip.NewRightmostTrustedRange(hk, clientip.TrustedIPRangeFunc(func() ([]net.IPNet, error) { return empty, nil }))
+		if err != nil {
+			run.Violate("ctor", fmt.Sprintf("NewRightmostTrustedRange(empty list): %v", err), nil)
+			continue
+		}
+		want := "error"
+		if len(rev) > 0 && rev[0].valid {
+			want = rev[0].ip
+		}
+		check("RightmostTrustedRange(no trusted range)", res, want, true, true)
 	}
 	// leftmost non private with limits
 	for _, lim := range []uint{1, 2, 3, 5, math.MaxUint, 1 << 63, 1<<32 + 2, 1<<63 + 1} {
